@@ -26,7 +26,7 @@ use crate::world::Violation;
 const MAX_OUT: usize = 6;
 
 /// A value type without drop glue.
-pub trait Payload: Sized + 'static {
+pub trait Payload: Sized + Clone + 'static {
     const NAME: &'static str;
     fn make(id: u32) -> Self;
     fn intact(&self, id: u32) -> bool;
@@ -35,6 +35,7 @@ pub trait Payload: Sized + 'static {
 }
 
 /// No field has drop glue: `needs_drop::<RawNode>()` is false.
+#[derive(Clone)]
 pub struct RawNode {
     pub id: u32,
     pub canary: Cell<u64>,
@@ -69,6 +70,7 @@ impl Payload for () {
 }
 
 /// Over-aligned payload: padding between the header and the value.
+#[derive(Clone)]
 #[repr(align(64))]
 pub struct Wide {
     id: u32,
@@ -95,8 +97,12 @@ fn new_node<T: Payload>(id: u32) -> Rc<T> {
 
 /// `a` comes to own a new recorded handle to `b` (kept in raw form).
 fn link<T: Payload>(a: &Rc<T>, b: &Rc<T>, k: usize) -> bool {
+    link_raw(a, b, k).is_some()
+}
+
+fn link_raw<T: Payload>(a: &Rc<T>, b: &Rc<T>, k: usize) -> Option<*const T> {
     if k >= MAX_OUT {
-        return false;
+        return None;
     }
     let p = alloc::enter_lib();
     let h = Rc::clone(b);
@@ -104,7 +110,7 @@ fn link<T: Payload>(a: &Rc<T>, b: &Rc<T>, k: usize) -> bool {
     let raw = Rc::into_raw(h);
     alloc::restore(p);
     a.keep(k, raw);
-    true
+    Some(raw)
 }
 
 fn viol(res: &mut HistResult, prop: &'static str, rule: &'static str, msg: String) {
@@ -113,15 +119,25 @@ fn viol(res: &mut HistResult, prop: &'static str, rule: &'static str, msg: Strin
     }
 }
 
-pub fn run(idx: u64, seed: u64, res: &mut HistResult) -> String {
+/// `consume`: an outside owner of some members is given up by `try_unwrap` / `make_mut` (C12) at some
+/// point; from then on violations are attributed to C12 (leaks stay with C04).
+pub fn run(idx: u64, seed: u64, consume: bool, res: &mut HistResult) -> String {
     match idx % 4 {
-        2 => run_with::<()>(idx, seed, res),
-        3 => run_with::<Wide>(idx, seed, res),
-        _ => run_with::<RawNode>(idx, seed, res),
+        2 => run_with::<()>(idx, seed, consume, res),
+        3 => run_with::<Wide>(idx, seed, consume, res),
+        _ => run_with::<RawNode>(idx, seed, consume, res),
     }
 }
 
-fn run_with<T: Payload>(idx: u64, seed: u64, res: &mut HistResult) -> String {
+fn attr(consumed: bool, native: &'static str) -> &'static str {
+    if consumed && native != "C04" {
+        "C12"
+    } else {
+        native
+    }
+}
+
+fn run_with<T: Payload>(idx: u64, seed: u64, consume: bool, res: &mut HistResult) -> String {
     assert!(!std::mem::needs_drop::<T>());
     let mut rng = Rng::new(crate::rng::mix(seed ^ 0x0D20, idx));
     let na = 1 + rng.below(5); // members of A
@@ -174,6 +190,29 @@ fn run_with<T: Payload>(idx: u64, seed: u64, res: &mut HistResult) -> String {
             edge(rng.below(na), na + rng.below(nb), &mut indeg);
         }
     }
+    // C12: an outside owner of one or two members of A, held by exactly one program handle
+    let mut owner: Option<Rc<T>> = None;
+    let mut owner_raws: Vec<(*const T, usize)> = vec![];
+    let mut owner_weak: Option<Weak<T>> = None;
+    let mut consumed = false;
+    let consume_at = rng.below(na); // before this drop step
+    let by_make_mut = rng.chance(1, 2);
+    if consume {
+        let o = new_node::<T>((na + nb) as u32);
+        for k in 0..1 + rng.below(2) {
+            let t = rng.below(na);
+            if let Some(raw) = link_raw(&o, &nodes[t], k) {
+                owner_raws.push((raw, t));
+                indeg[t] += 1;
+            }
+        }
+        if by_make_mut || rng.chance(1, 2) {
+            let p = alloc::enter_lib();
+            owner_weak = Some(Rc::downgrade(&o));
+            alloc::restore(p);
+        }
+        owner = Some(o);
+    }
     let weaks: Vec<Weak<T>> = nodes
         .iter()
         .map(|n| {
@@ -189,8 +228,53 @@ fn run_with<T: Payload>(idx: u64, seed: u64, res: &mut HistResult) -> String {
     for i in (1..order.len()).rev() {
         order.swap(i, rng.below(i + 1));
     }
-    let desc = format!("nodrop payload={} kind={} A={} B={} order={:?}", T::NAME, kind, na, nb, order);
+    let desc = format!(
+        "nodrop payload={} kind={} A={} B={} order={:?}{}",
+        T::NAME,
+        kind,
+        na,
+        nb,
+        order,
+        if consume { format!(" owner of {:?} given up by {} before step {}, weak {}", owner_raws.iter().map(|r| r.1).collect::<Vec<_>>(), if by_make_mut { "make_mut" } else { "try_unwrap" }, consume_at, owner_weak.is_some()) } else { String::new() }
+    );
     for (step, &x) in order.iter().enumerate() {
+        if consume && step == consume_at {
+            let mut o = owner.take().unwrap();
+            let p = alloc::enter_lib();
+            if by_make_mut {
+                // one strong handle and a Weak: the value moves to a new allocation, the old one is
+                // given up; the moved value still owns its raw handles, which it now releases
+                let _ = Rc::make_mut(&mut o);
+                for (raw, t) in owner_raws.drain(..) {
+                    unsafe { Rc::decrement_strong_count(raw) };
+                    indeg[t] -= 1;
+                }
+                drop(o);
+            } else {
+                match Rc::try_unwrap(o) {
+                    Ok(val) => {
+                        for (raw, t) in owner_raws.drain(..) {
+                            unsafe { Rc::decrement_strong_count(raw) };
+                            indeg[t] -= 1;
+                        }
+                        std::mem::forget(val);
+                    }
+                    Err(o) => {
+                        viol(res, "C12", "count", format!("{}: try_unwrap through the only strong handle was refused", desc));
+                        std::mem::forget(o);
+                        owner_raws.clear();
+                    }
+                }
+            }
+            alloc::restore(p);
+            consumed = true;
+            res.stats.consume_ok += 1;
+            if let Some(w) = &owner_weak {
+                if w.strong_count() != 0 || w.upgrade().is_some() {
+                    viol(res, "C12", "weak", format!("{}: a Weak to the given-up allocation of the owner still reports it alive", desc));
+                }
+            }
+        }
         let h = prog[x].take().unwrap();
         let p = alloc::enter_lib();
         if step % 3 == 2 {
@@ -212,14 +296,14 @@ fn run_with<T: Payload>(idx: u64, seed: u64, res: &mut HistResult) -> String {
             if i < na && last {
                 res.stats.weak_obs += 1;
                 if sc != 0 || weaks[i].upgrade().is_some() {
-                    viol(res, "C03", "sync", format!("{}: the last outside handle of group A is gone but member {} is still alive (strong_count {}): values without drop glue", desc, i, sc));
+                    viol(res, attr(consumed, "C03"), "sync", format!("{}: the last outside handle of group A is gone but member {} is still alive (strong_count {}): values without drop glue", desc, i, sc));
                 }
             } else {
                 // A is still held by the program (or this is B): alive, exact count, intact value
                 let expect = held + indeg[i];
                 res.stats.count_obs += 1;
                 if sc != expect {
-                    let prop = if sc == 0 { "C01" } else { "C06" };
+                    let prop = attr(consumed, if sc == 0 { "C01" } else { "C06" });
                     viol(res, prop, if sc == 0 { "live" } else { "count" }, format!("{}: after step {} object {} has strong_count {} but {} handles exist", desc, step, i, sc, expect));
                 }
                 if sc != 0 {
@@ -229,13 +313,13 @@ fn run_with<T: Payload>(idx: u64, seed: u64, res: &mut HistResult) -> String {
                     match up {
                         Some(rc) => {
                             if !rc.intact(i as u32) {
-                                viol(res, "C01", "live", format!("{}: object {} is damaged or misplaced (value at {:p})", desc, i, Rc::as_ptr(&rc)));
+                                viol(res, attr(consumed, "C01"), "live", format!("{}: object {} is damaged or misplaced (value at {:p})", desc, i, Rc::as_ptr(&rc)));
                             }
                             let p = alloc::enter_lib();
                             drop(rc);
                             alloc::restore(p);
                         }
-                        None => viol(res, "C01", "live", format!("{}: object {} cannot be upgraded although {} handles exist", desc, i, expect)),
+                        None => viol(res, attr(consumed, "C01"), "live", format!("{}: object {} cannot be upgraded although {} handles exist", desc, i, expect)),
                     }
                 }
             }
@@ -247,6 +331,7 @@ fn run_with<T: Payload>(idx: u64, seed: u64, res: &mut HistResult) -> String {
         res.stats.begins = na as u64;
     }
     res.stats.ops = (na + nb) as u64 * 2;
+    res.stats.links_entries = 2 * outdeg.iter().sum::<usize>() as u64;
     // the Weak handles to A go: with no B the library must hold nothing afterwards
     let p = alloc::enter_lib();
     for (i, w) in weaks.into_iter().enumerate() {
@@ -260,6 +345,12 @@ fn run_with<T: Payload>(idx: u64, seed: u64, res: &mut HistResult) -> String {
     for h in prog.into_iter().flatten() {
         std::mem::forget(h);
     }
+    if let Some(w) = owner_weak.take() {
+        // the bare old allocation of the owner goes with its last Weak
+        let p = alloc::enter_lib();
+        drop(w);
+        alloc::restore(p);
+    }
     if nb == 0 && alloc::ENABLED {
         res.stats.mem_obs += 1;
         res.all_dead = true;
@@ -271,7 +362,7 @@ fn run_with<T: Payload>(idx: u64, seed: u64, res: &mut HistResult) -> String {
     if alloc::ENABLED {
         let c = alloc::counters();
         if c.invalid_frees != 0 || c.layout_mismatch != 0 || c.write_after_free != 0 {
-            viol(res, "C02", "mem", format!("{}: allocator faults (invalid frees {}, releases with another layout {}, writes after free {})", desc, c.invalid_frees, c.layout_mismatch, c.write_after_free));
+            viol(res, attr(consumed, "C02"), "once", format!("{}: allocator faults (invalid frees {}, releases with another layout {}, writes after free {})", desc, c.invalid_frees, c.layout_mismatch, c.write_after_free));
         }
     }
     res.paths = Paths::snapshot().minus(&p0);
